@@ -133,6 +133,7 @@ def main():
             meta = json.load(open(mp))
             props = ["C%02d" % i for i in range(1, 17)] if allp else [meta["property"]]
             res = run_checks(name, props, tier)
+            meta = json.load(open(mp))  # re-read: descriptive fields may have been edited meanwhile
             key = "checks_%s" % tier
             meta.setdefault(key, {}).update(res)
             meta["detected_by"] = sorted({p for k in meta if k.startswith("checks_") for p, v in meta[k].items() if isinstance(v, dict) and v.get("exit") == 1})
